@@ -27,6 +27,7 @@ import (
 	"fmt"
 	"io"
 	"log"
+	"net"
 	"net/http"
 	"net/http/httptest"
 	"net/url"
@@ -257,10 +258,16 @@ type world struct {
 	r       *c.Rng
 	proxyW  *c.ProxyWorld  // policy: allowed_email_domains [corp.test]
 	proxyG  *c.ProxyWorld  // policy: allowed_groups [g1]
+	proxyRst  *c.ProxyWorld // upstream resets every connection
+	proxySlow *c.ProxyWorld // upstream slower than the upstream's timeout (150ms)
+	ctlT    *authWorld     // like ctlA, behind http.TimeoutHandler with a 150ms request timeout
+	pHandlers map[*c.ProxyWorld]http.Handler
+	statsd  *statsd.Client
 	fake    *c.FakeAuth
 	ctlR    *authWorld     // Authenticator built directly, scriptable provider, validators reject everybody
 	ctlA    *authWorld     // ... validators accept everybody
 	nSame   int
+	nDiverged int
 	proxyT  interface{ ExecuteTemplate(io.Writer, string, interface{}) error }
 	authT   *templates.HTMLTemplate
 	auths   []*authWorld
@@ -274,6 +281,7 @@ type authWorld struct {
 	mux     *auth.AuthenticatorMux
 	h       http.Handler             // what requests are served by (the mux, or one Authenticator's ServeMux)
 	tp      *providers.TestProvider  // only for the directly built authenticators
+	sp      *slowProvider
 	domains []string
 	cipher  aead.Cipher
 	last    interface{}
@@ -348,6 +356,16 @@ func sign(redirect string, ts int64) string {
 
 // ---------------------------------------------------------------------------------------------
 // case builders
+
+// proxyHandler: the handler chain of cmd/sso-proxy/main.go (logging handler around proxy.New's handler)
+func (w *world) proxyHandler(pw *c.ProxyWorld) http.Handler {
+	if h, ok := w.pHandlers[pw]; ok {
+		return h
+	}
+	h := proxy.NewLoggingHandler(io.Discard, pw.Handler, proxy.LoggingConfig{Enable: true}, w.statsd)
+	w.pHandlers[pw] = h
+	return h
+}
 
 func (w *world) render(svc int, page string, data interface{}) string {
 	var buf bytes.Buffer
@@ -485,7 +503,7 @@ func (w *world) proxyCallback(payload string) {
 	if !ok {
 		return
 	}
-	rec := wireOf(w.proxyW, w.proxyW.Handler).roundTrip(req)
+	rec := wireOf(w.proxyW, w.proxyHandler(w.proxyW)).roundTrip(req)
 	if rec == nil {
 		return
 	}
@@ -501,14 +519,14 @@ func (w *world) proxyXHR(payload string) {
 		return
 	}
 	req.Header.Set("X-Requested-With", "XMLHttpRequest")
-	rec := wireOf(w.proxyW, w.proxyW.Handler).roundTrip(req)
+	rec := wireOf(w.proxyW, w.proxyHandler(w.proxyW)).roundTrip(req)
 	if rec == nil {
 		return
 	}
 	benign := ""
 	if reqB, ok := newReq("GET", proxyHost, "/oauth2/callback?error=benign"); ok {
 		reqB.Header.Set("X-Requested-With", "XMLHttpRequest")
-		if recB := wireOf(w.proxyW, w.proxyW.Handler).roundTrip(reqB); recB != nil {
+		if recB := wireOf(w.proxyW, w.proxyHandler(w.proxyW)).roundTrip(reqB); recB != nil {
 			benign = recB.Body.String()
 		}
 	}
@@ -552,7 +570,8 @@ func (w *world) authCallback(a *authWorld, payload string, asJSON bool) {
 		return
 	}
 	if a.last == nil {
-		c.Must(fmt.Errorf("auth callback rendered no template (status %d)", rec.Code))
+		w.divergedCase(1, 900, "GET /test/callback?error=<payload>", "no template call recorded", []string{payload}, rec, nil)
+		return
 	}
 	w.pageCaseCT(1, a.lastN, a.last, rec, "GET /test/callback?error=<payload> on the real authenticator")
 }
@@ -612,7 +631,8 @@ func (w *world) authSignIn(a *authWorld, hostLabel, rawExtra, escExtra string, m
 		return
 	}
 	if mustReach && (a.last == nil || a.lastN != "sign_in.html") {
-		c.Must(fmt.Errorf("sign_in did not render the sign-in page: status %d template %q query %q", rec.Code, a.lastN, q))
+		w.divergedCase(1, 901, "GET /test/sign_in (no session)", fmt.Sprintf("sign-in page not rendered through the template: status %d template %q", rec.Code, a.lastN), []string{q}, rec, nil)
+		return
 	}
 	if a.last == nil { // answered without a page (redirect): nothing to observe
 		return
@@ -663,7 +683,8 @@ func (w *world) authSignOut(a *authWorld, r *c.Rng, hostLabel, pathPayload, emai
 		return
 	}
 	if mustReach && (a.last == nil || a.lastN != "sign_out.html") {
-		c.Must(fmt.Errorf("sign_out did not render the sign-out page: status %d template %q query %q", rec.Code, a.lastN, q))
+		w.divergedCase(1, 902, "GET /test/sign_out with a sealed session", fmt.Sprintf("sign-out page not rendered through the template: status %d template %q", rec.Code, a.lastN), []string{q}, rec, nil)
+		return
 	}
 	if a.last == nil {
 		return
@@ -816,7 +837,12 @@ func main() {
 	fake := c.NewFakeAuth()
 	defer fake.Srv.Close()
 	defer closeWires()
-	yaml := "- service: svc\n  default:\n    from: " + proxyHost + "\n    to: 127.0.0.1:9\n    options:\n      allowed_email_domains: [\"corp.test\"]\n"
+	// an upstream address nobody listens on (connection refused)
+	cl, err := net.Listen("tcp", "127.0.0.1:0")
+	c.Must(err)
+	closedAddr := cl.Addr().String()
+	cl.Close()
+	yaml := "- service: svc\n  default:\n    from: " + proxyHost + "\n    to: " + closedAddr + "\n    options:\n      allowed_email_domains: [\"corp.test\"]\n"
 	pw, err := c.BuildProxy(c.ProxyOpts{YAML: yaml, Valid: time.Hour, Dir: dir}, fake)
 	c.Must(err)
 
@@ -824,8 +850,37 @@ func main() {
 	pg, err := c.BuildProxy(c.ProxyOpts{YAML: yamlG, Valid: time.Hour, Dir: dir}, fake)
 	c.Must(err)
 	w := &world{r: r, proxyW: pw, proxyG: pg, fake: fake, proxyT: proxy.VerifGetTemplates(), authT: templates.NewHTMLTemplate()}
-	w.ctlR = buildCtlAuth([]string{"corp.test"})
-	w.ctlA = buildCtlAuth([]string{"*"})
+	w.ctlR = buildCtlAuth([]string{"corp.test"}, 30*time.Second)
+	w.ctlA = buildCtlAuth([]string{"*"}, 30*time.Second)
+	w.ctlT = buildCtlAuth([]string{"*"}, 150*time.Millisecond)
+	w.pHandlers = map[*c.ProxyWorld]http.Handler{}
+	w.statsd, err = statsd.New("127.0.0.1:8125")
+	c.Must(err)
+	// upstream that resets every connection
+	rst := httptest.NewServer(http.HandlerFunc(func(rw http.ResponseWriter, _ *http.Request) {
+		if hj, ok := rw.(http.Hijacker); ok {
+			if conn, _, err := hj.Hijack(); err == nil {
+				if tc, ok := conn.(*net.TCPConn); ok {
+					tc.SetLinger(0)
+				}
+				conn.Close()
+			}
+		}
+	}))
+	defer rst.Close()
+	slow := httptest.NewServer(http.HandlerFunc(func(rw http.ResponseWriter, _ *http.Request) {
+		time.Sleep(500 * time.Millisecond)
+		io.WriteString(rw, "late")
+	}))
+	defer slow.Close()
+	mk := func(to, extra string) *c.ProxyWorld {
+		y := "- service: svc\n  default:\n    from: " + proxyHost + "\n    to: " + to + "\n    options:\n      allowed_email_domains: [\"corp.test\"]\n" + extra
+		p, err := c.BuildProxy(c.ProxyOpts{YAML: y, Valid: time.Hour, Dir: dir}, fake)
+		c.Must(err)
+		return p
+	}
+	w.proxyRst = mk(strings.TrimPrefix(rst.URL, "http://"), "")
+	w.proxySlow = mk(strings.TrimPrefix(slow.URL, "http://"), "      timeout: 150ms\n")
 	for _, d := range [][]string{{"example.com"}, {"@*"}, {"example.com", "example.org", "corp.test"}, nil} {
 		w.auths = append(w.auths, buildAuth(d))
 	}
@@ -858,13 +913,14 @@ func main() {
 		}
 	}
 	w.siteCorpus()
+	w.timeoutSequences()
 	nCorpus := len(w.cases)
 
 	// ---- generated ----
 	n := a.N
 	nHandler := n / 24
-	nSites := n / 12
-	nDirect := n / 16
+	nSites := n / 16
+	nDirect := n / 24
 	nJSON := n / 5
 	nHole := n - nHandler - nDirect - nJSON - nSites
 	for i := 0; i < nHandler; i++ {
@@ -914,7 +970,7 @@ func main() {
 	// spread the (large) page cases evenly over the shards so that coqc's work is balanced
 	var big, small []c.Case
 	for _, cs := range w.cases {
-		if strings.HasPrefix(cs.Coq, "CPage") || strings.HasPrefix(cs.Coq, "CSame") {
+		if strings.HasPrefix(cs.Coq, "CPage") || strings.HasPrefix(cs.Coq, "CSame") || strings.HasPrefix(cs.Coq, "CDiverged") {
 			big = append(big, cs)
 		} else {
 			small = append(small, cs)
@@ -934,5 +990,5 @@ func main() {
 		}
 	}
 	c.Must(c.WriteShards(a.Out, "Corr_C20", w.cases, a.Shard))
-	fmt.Printf("cases=%d corpus=%d pages=%d same=%d holes=%d json=%d\n", len(w.cases), nCorpus, w.nPages, w.nSame, w.nHoles, w.nJSON)
+	fmt.Printf("cases=%d corpus=%d pages=%d same=%d holes=%d json=%d diverged=%d\n", len(w.cases), nCorpus, w.nPages, w.nSame, w.nHoles, w.nJSON, w.nDiverged)
 }
